@@ -150,10 +150,36 @@ def check_naming(chk: Check, rng: common.Rng, thorough: bool) -> list[dict]:
 
 # ----------------------------------------------------------------------------- exports
 
+import re
+
+_BLAME = [r"No Op registered for (\w+)", r"Optype \((\w+)\)", r"op_type:\s*(\w+)", r'In Node, \("[^"]*", (\w+),',
+          r"onnxruntime::(\w+)::\1\(", r"implementation for (\w+)\(", r"node \(node_([A-Za-z]+)_\d+\)",
+          r"node_([A-Za-z]+)_\d+"]
+
+
+def blamed_op(msg: str) -> str:
+    """Operator an oracle message puts the blame on (part of the finding key)."""
+    for pat in _BLAME:
+        m = re.search(pat, msg)
+        if m:
+            return m.group(1)
+    return ""
+
+
+# exports of the listed defects: part of every run so that the KNOWN-FINDING lines are printed
+CORPUS = [("primitives.lax", "cumprod_i32_axis2"), ("primitives.lax", "bitcast_scalar_f32_to_i32"),
+          ("primitives.random", "random_bits_uint32_f64"), ("primitives.lax", "reduce_sum_dtype_f64"),
+          ("primitives.lax", "dus_tensorscatter_axis1_opset24")]
+
+
 
 def export_set(chk: Check, rng: common.Rng, thorough: bool):
     import progs
     plan = []
+    by_key = {(p.get("context"), p["testcase"]): p for p in progs.plugin_params()}
+    for key in CORPUS:
+        if key in by_key:
+            plan.append((progs.plugin_desc(by_key[key]), progs.plugin_cfg(by_key[key])))
     core = progs.core_programs(rng, n_random=12 if not thorough else 120, max_depth=3 if not thorough else 5)
     for d in core:
         plan.append((d, progs.default_cfg()))
@@ -229,7 +255,9 @@ def run(chk: Check) -> None:
                             {"program": ex.desc, "config": ex.cfg, "checker": ans, "diagnosis": diag[:10],
                              "oracles": fails})
             for f in fails:
-                chk.finding({"kind": "not_loadable", "oracle": f["oracle"], "program": progs.describe(ex.desc)},
+                chk.finding({"kind": "not_loadable", "oracle": f["oracle"], "blamed_op": blamed_op(f["msg"]),
+                             "program": progs.describe(ex.desc), "context": ex.desc.get("context", "program"),
+                             "component": ex.desc.get("component", ex.desc.get("name", ""))},
                             f"{f['oracle']} rejects the export of {progs.describe(ex.desc)}: {f['msg'][:160]}",
                             {"program": ex.desc, "config": ex.cfg, "oracle": f})
         chk.log(f"{n_done} models checked at {round(time.time() - chk.t0, 1)} s")
